@@ -153,7 +153,7 @@ Proof. unfold remove_data_expire. pgp_go. Qed.
 #[local] Hint Resolve pgp_set_data_expire pgp_remove_data_expire : pgp.
 Lemma pgp_new_meta cx o d m : pgp (new_meta cx o d m).
 Proof. unfold new_meta. pgp_go. Qed.
-Lemma pgp_reset_meta_duration d m : pgp (reset_meta_duration d m).
+Lemma pgp_reset_meta_duration cx d m : pgp (reset_meta_duration cx d m).
 Proof. unfold reset_meta_duration. pgp_go. Qed.
 Lemma pgp_extend_meta_duration d e : pgp (extend_meta_duration d e).
 Proof. unfold extend_meta_duration. pgp_go. Qed.
@@ -172,10 +172,10 @@ Lemma pgp_update_meta cx oid o : pgp (update_meta cx oid o).
 Proof. unfold update_meta. pgp_go. Qed.
 Lemma pgp_update_meta_status_commit cx oid o : pgp (update_meta_status_commit cx oid o).
 Proof. unfold update_meta_status_commit. pgp_go. Qed.
-Lemma pgp_rollback_meta d : pgp (rollback_meta d).
+Lemma pgp_rollback_meta cx d : pgp (rollback_meta cx d).
 Proof. unfold rollback_meta. pgp_go. Qed.
 #[local] Hint Resolve pgp_update_meta pgp_update_meta_status_commit pgp_rollback_meta : pgp.
-Lemma pgp_cancel_order oid : pgp (cancel_order oid).
+Lemma pgp_cancel_order cx oid : pgp (cancel_order cx oid).
 Proof. unfold cancel_order. pgp_go. Qed.
 Lemma pgp_update_permission ow d ro rw : pgp (update_permission ow d ro rw).
 Proof. unfold update_permission. pgp_go. Qed.
